@@ -806,7 +806,8 @@ bool SoPlexBase<R>::getDualReal(R* p_vector, int dim) // For SCIP
    {
       _syncRealSolution();
       auto& dual = _solReal._dual;
-      std::copy(dual.begin(), dual.end(), p_vector);
+      // copy exactly the user's dimension (the caller's buffer need not be larger)
+      std::copy(dual.begin(), dual.begin() + (dual.dim() < numRows() ? dual.dim() : numRows()), p_vector);
 
       return true;
    }
@@ -825,7 +826,8 @@ bool SoPlexBase<R>::getRedCostReal(R* p_vector, int dim) // For SCIP compatibili
    {
       _syncRealSolution();
       auto& redcost = _solReal._redCost;
-      std::copy(redcost.begin(), redcost.end(), p_vector);
+      // copy exactly the user's dimension (the caller's buffer need not be larger)
+      std::copy(redcost.begin(), redcost.begin() + (redcost.dim() < numCols() ? redcost.dim() : numCols()), p_vector);
 
       return true;
    }
@@ -1146,7 +1148,8 @@ bool SoPlexBase<R>::getPrimalReal(R* p_vector, int size)
       _syncRealSolution();
 
       auto& primal = _solReal._primal;
-      std::copy(primal.begin(), primal.end(), p_vector);
+      // copy exactly the user's dimension (the caller's buffer need not be larger)
+      std::copy(primal.begin(), primal.begin() + (primal.dim() < numCols() ? primal.dim() : numCols()), p_vector);
 
       return true;
    }
@@ -3852,7 +3855,8 @@ bool SoPlexBase<R>::getSlacksReal(R* p_vector, int dim)
       _syncRealSolution();
 
       auto& slacks = _solReal._slacks;
-      std::copy(slacks.begin(), slacks.end(), p_vector);
+      // copy exactly the user's dimension (the caller's buffer need not be larger)
+      std::copy(slacks.begin(), slacks.begin() + (slacks.dim() < numRows() ? slacks.dim() : numRows()), p_vector);
 
       return true;
    }
